@@ -106,8 +106,68 @@ def order_search(ctx):
             ctx.fail(f"order:constrained_inner:{name}", f"ConstrainedLeapfrogIntegrator on {name}: n_inner_step=1 and 3 differ by {[float(f'{e:.2e}') for e in diffs]} "
                      f"at eps={EPS}: observed order {min(orders):.2f} < 3 (they should approximate the same flow)",
                      {"system": name, "diffs": [float(e) for e in diffs], "pos": st0.pos.tolist(), "mom": st0.mom.tolist()})
+    # constrained systems with a potential: reference = RK4 on the constrained Hamilton equations (multipliers from the twice-differentiated constraint) whose
+    # force is the finite-difference gradient of the system's own Hamiltonian VALUE h(q, 0) -- independent of every gradient routine of the implementation
+    import mici.systems as S
+    Mdense = np.diag([1.0, 2.0, 0.5, 1.5]) + 0.2 * np.ones((4, 4))
+    H1 = np.zeros((4, 4))
+    H1[0, 1] = H1[1, 0] = 1.0
+    mhp = lambda q: (lambda m: m[0] @ (2 * np.eye(4)) + m[1] @ H1)  # noqa: E731
+    csys = {n: systems[n] for n in ("constr_hTrue", "constr_hFalse", "gauss_constr")}
+    csys["constr_hFalse_dense"] = S.DenseConstrainedEuclideanMetricSystem(lambda q: 0.5 * np.sum((q - 0.2) ** 2), zoo.constr_fn, metric=Mdense, dens_wrt_hausdorff=False,
+                                                                         grad_neg_log_dens=lambda q: q - 0.2, jacob_constr=zoo.jac_fn, mhp_constr=mhp)
+    csys["gauss_constr_dense"] = S.GaussianDenseConstrainedEuclideanMetricSystem(lambda q: 0.1 * np.sum(q ** 4), zoo.constr_fn, metric=Mdense,
+                                                                                grad_neg_log_dens=lambda q: 0.4 * q ** 3, jacob_constr=zoo.jac_fn, mhp_constr=mhp)
+    for name, sysm in csys.items():
+        Mi = np.linalg.inv(np.asarray(sysm.metric.array))
+        crng = np.random.default_rng(int(ctx.rng.integers(0, 2 ** 31)))
+        q0 = zoo.on_manifold_point(crng)
+        st0 = ChainState(pos=q0.copy(), mom=None, dir=1)
+        st0.mom = sysm.sample_momentum(st0, crng)
+
+        def U(q, sysm=sysm):
+            return float(sysm.h(ChainState(pos=q.copy(), mom=np.zeros_like(q), dir=1)))
+
+        def rhs(q, p, Mi=Mi):
+            g = zoo.fd_grad(U, q, h=1e-5)
+            v = Mi @ p
+            J = zoo.jac_fn(q)
+            hh = 1e-5
+            Jdot = (zoo.jac_fn(q + hh * v) - zoo.jac_fn(q - hh * v)) / (2 * hh)
+            lam = np.linalg.solve(J @ Mi @ J.T, Jdot @ v - J @ Mi @ g)
+            return v, -g - J.T @ lam
+
+        def ref_flow(T, nsub=100):
+            q, p = st0.pos.copy(), st0.mom.copy()
+            h = T / nsub
+            for _ in range(nsub):
+                k1q, k1p = rhs(q, p)
+                k2q, k2p = rhs(q + 0.5 * h * k1q, p + 0.5 * h * k1p)
+                k3q, k3p = rhs(q + 0.5 * h * k2q, p + 0.5 * h * k2p)
+                k4q, k4p = rhs(q + h * k3q, p + h * k3p)
+                q = q + h / 6 * (k1q + 2 * k2q + 2 * k3q + k4q)
+                p = p + h / 6 * (k1p + 2 * k2p + 2 * k3p + k4p)
+            return q, p
+        for n_inner in (1, 2):
+            errs = []
+            try:
+                for eps in EPS:
+                    r = mici.integrators.ConstrainedLeapfrogIntegrator(sysm, eps, n_inner_step=n_inner).step(st0)
+                    qr, pr = ref_flow(eps)
+                    errs.append(max(np.abs(r.pos - qr).max(), np.abs(r.mom - pr).max()))
+            except IntegratorError:
+                continue
+            ctx.case(("constrained-ode", name, n_inner))
+            ctx.count("search:order_constrained_ode")
+            orders = [np.log2(errs[i] / errs[i + 1]) for i in range(2)] if min(errs) > 1e-12 else [3.0, 3.0]
+            if min(orders) < 2.5 and errs[-1] > 1e-8:
+                bad += 1
+                ctx.fail(f"order:constrained_ode:{name}", f"ConstrainedLeapfrogIntegrator(n_inner_step={n_inner}) on {name}: local error vs an RK4 reference of the constrained Hamilton "
+                         f"equations of the system's own Hamiltonian is {[float(f'{e:.2e}') for e in errs]} at eps={EPS}: observed order {min(orders):.2f} < 3",
+                         {"system": name, "n_inner": n_inner, "errors": [float(e) for e in errs], "pos": st0.pos.tolist(), "mom": st0.mom.tolist()})
     ctx.oblige("search: observed local order >= 2.5 against an independent RK4 reference (unconstrained systems, all integrators), the closed-form geodesic "
-               "flow on the sphere (constrained, all solvers / inner step counts) and across inner step counts", bad == 0, f"{bad} failures")
+               "flow on the sphere (constrained, all solvers / inner step counts), across inner step counts, and against RK4 on the constrained Hamilton equations with "
+               "finite-difference forces of the system's own Hamiltonian value (both density conventions, diagonal and dense metrics, Gaussian-split)", bad == 0, f"{bad} failures")
 
 
 def run(ctx):
